@@ -20,7 +20,7 @@ import h5py
 import numpy as np
 import pyarrow as pa
 from astropy.io import fits
-from pyarrow import ArrowException, Table, parquet
+from pyarrow import Table, parquet
 
 from yaw.datachunk import (
     ATTR_ORDER,
@@ -656,23 +656,25 @@ class ParquetReader(FileReader):
     def _reset_iter_state(self) -> None:
         super()._reset_iter_state()
         self._group_cache = deque()
-        self._group_idx = 0  # parquet file iteration state
+        self._batch_iter = None  # parquet file iteration state
 
     def _get_group_cache_size(self) -> int:
         """Get the number of records currently stored in the row-group cache."""
         return sum(len(group) for group in self._group_cache)
 
     def _load_groups(self) -> None:
-        """Keep reading row-groups from the input file until a full chunk can be
-        constructed or the end of the file is reached."""
+        """Keep reading batches of at most ``chunksize`` records from the input
+        file, independent of the size of its row-groups, until a full chunk can
+        be constructed or the end of the file is reached."""
+        if self._batch_iter is None:
+            self._batch_iter = self._file.iter_batches(
+                batch_size=self.chunksize, columns=list(self._columns.values())
+            )
         while self._get_group_cache_size() < self.chunksize:
             try:
-                next_group = self._file.read_row_group(
-                    self._group_idx, self._columns.values()
-                )
-                self._group_cache.append(next_group)
-                self._group_idx += 1
-            except ArrowException:
+                next_batch = next(self._batch_iter)
+                self._group_cache.append(pa.Table.from_batches([next_batch]))
+            except StopIteration:
                 break  # end of file reached before chunk is full
 
     def _extract_chunk(self) -> Table:
